@@ -33,7 +33,7 @@ func init() {
 			return 208
 		},
 		Batches: func(t string) int { return 16 },
-		Rule:    "each case = 2 wallets (PRNG keys) and 2 session secrets taken from two real ECDH set-ups (secureKey.setup/hkdf): (a) the full matrix signer x signed-secret x claimed-public-key(compressed/uncompressed) x verified-secret through Authenticator.Signature/VerifySignature; (b) ~70 mutations of one valid tuple: single-bit flips in signature and public key, wrong lengths, garbage/hybrid/negated keys, 64-byte and high-s signature forms, altered secrets; every result is compared with an independent decision (decred key parsing + Go crypto/ecdsa.Verify over SHA3-256(secret)); (c) 4 real handshakes: a real listening Authenticator against a scripted dialer and a real dialing Authenticator against a scripted listener, each once honest and once with one attack (signature replayed from the previous real session, other key, bit flip, foreign public key, signature over a traffic key, error field) over suite none or ecdhe. Non-trivial = distinct rejected tuple (reference says invalid) or distinct handshake attack.",
+		Rule:    "each case = 2 wallets (PRNG keys) and 2 session secrets taken from two real ECDH set-ups (secureKey.setup/hkdf): (a) the full matrix signer x signed-secret x claimed-public-key(compressed/uncompressed) x signature form (65-byte, 64-byte [R|S]) x verified-secret through Authenticator.Signature/VerifySignature; (b) ~100 mutations of one valid tuple (incl. 16 reference-invalid 64-byte [R|S] signatures: random, other key, other session, other content, bit flips, r/s = 0 or N): single-bit flips in signature and public key, wrong lengths, garbage/hybrid/negated keys, 64-byte and high-s signature forms, altered secrets; every result is compared with an independent decision (decred key parsing + Go crypto/ecdsa.Verify over SHA3-256(secret)); (c) 4 real handshakes: a real listening Authenticator against a scripted dialer and a real dialing Authenticator against a scripted listener, each once honest and once with one attack (signature replayed from the previous real session, other key, bit flip, foreign public key, signature over a traffic key, error field) over suite none or ecdhe. Non-trivial = distinct rejected tuple (reference says invalid) or distinct handshake attack.",
 		MinNonTrivial: func(t string) int {
 			if t == ev.Thorough {
 				return 500000
@@ -41,7 +41,7 @@ func init() {
 			return 8000
 		},
 		Required: []string{"matrix_accept", "matrix_reject_other_session", "matrix_reject_other_key", "mut_sig_bitflip_reject", "mut_pub_bitflip_reject",
-			"mut_length_reject", "hs_in_honest_accepted", "hs_out_honest_accepted", "hs_in_attack_rejected", "hs_out_attack_rejected",
+			"mut_length_reject", "mut_sig64_invalid_reject", "matrix_reject_64_byte_form", "hs_attack_64_byte_signature_rejected", "hs_in_honest_accepted", "hs_out_honest_accepted", "hs_in_attack_rejected", "hs_out_attack_rejected",
 			"hs_attack_replay_other_session", "hs_suite_none", "hs_suite_ecdhe", "responder_signs_this_session"},
 		Assumptions: []string{
 			"ECDSA/secp256k1 unforgeability and SHA3-256: 'forged' = made by another key, over another secret, or bit-mutated",
@@ -188,13 +188,16 @@ func run(c *ev.Ctx) {
 			for signed := 0; signed < 2; signed++ {
 				for claimed := 0; claimed < 2; claimed++ {
 					for verified := 0; verified < 2; verified++ {
-						for form := 0; form < 2; form++ {
+						for form := 0; form < 3; form++ {
 							c.Eval(1)
 							pub := ps[claimed].pubC
 							if form == 1 {
 								pub = ps[claimed].pubU
 							}
 							sig := sigs[signer][signed]
+							if form == 2 {
+								sig = sig[:64] // [R|S] without the recovery byte
+							}
 							want := signer == claimed && signed == verified
 							ref := refValid(pub, sig, secrets[verified])
 							wit := func() map[string]interface{} {
@@ -221,6 +224,11 @@ func run(c *ev.Ctx) {
 								continue
 							}
 							if want {
+								if err != nil && form == 2 {
+									// a genuine signature without its recovery byte is not the wallet's form: may be refused
+									c.Count("valid_variant_rejected_matrix_64_byte", 1)
+									continue
+								}
 								if err != nil {
 									m := wit()
 									m["err"] = err.Error()
@@ -252,6 +260,9 @@ func run(c *ev.Ctx) {
 							}
 							if signer != claimed {
 								c.Count("matrix_reject_other_key", 1)
+							}
+							if form == 2 {
+								c.Count("matrix_reject_64_byte_form", 1)
 							}
 							c.NonTrivial(fmt.Sprintf("M%x/%x/%x", pub, sig, secrets[verified]))
 						}
@@ -294,6 +305,29 @@ func run(c *ev.Ctx) {
 			muts = append(muts, mut{class: "length", pub: b, sig: good, secret: s1})
 		}
 		muts = append(muts, mut{class: "sig_64_bytes", pub: ps[0].pubC, sig: good[:64], secret: s1})
+		{ // 64-byte [R|S] signatures that do NOT verify for (key 1, secret 1)
+			rnd := make([]byte, 64)
+			r.Read(rnd)
+			nb := secp256k1.S256().N.FillBytes(make([]byte, 32))
+			zero := make([]byte, 32)
+			cat := func(a, b []byte) []byte { return append(append([]byte(nil), a...), b...) }
+			for _, v := range [][]byte{
+				rnd,
+				sigs[1][0][:64], // made by the other key
+				sigs[0][1][:64], // made over the other session's secret
+				ps[0].auth.Signature(t1)[:64],
+				ps[0].auth.Signature(nil)[:64],
+				flip(good[:64], r.Intn(64*8)),
+				flip(good[:64], r.Intn(32*8)),
+				flip(good[:64], 32*8+r.Intn(32*8)),
+				cat(zero, good[32:64]), cat(good[:32], zero), cat(zero, zero),
+				cat(nb, good[32:64]), cat(good[:32], nb), cat(nb, nb),
+			} {
+				muts = append(muts, mut{class: "sig64_invalid", pub: ps[0].pubC, sig: v, secret: s1})
+			}
+			muts = append(muts, mut{class: "sig64_invalid", pub: ps[0].pubU, sig: rnd, secret: s1},
+				mut{class: "sig64_invalid", pub: ps[1].pubC, sig: good[:64], secret: s1}) // genuine [R|S] of key 1 claimed for key 2
+		}
 		{ // high-s twin (r, N-s)
 			n := secp256k1.S256().N
 			s := new(big.Int).SetBytes(good[32:64])
@@ -468,6 +502,28 @@ var attacks = []attack{
 		g := make([]byte, 33)
 		r.Read(g)
 		return g, me.auth.Signature(cur), ""
+	}},
+	{"sig64_random", func(r *rand.Rand, me, other *party, cur, tr []byte, prev *prevSession) ([]byte, []byte, string) {
+		g := make([]byte, 64)
+		r.Read(g)
+		return me.w.PublicKey(), g, ""
+	}},
+	{"sig64_other_key_signs", func(r *rand.Rand, me, other *party, cur, tr []byte, prev *prevSession) ([]byte, []byte, string) {
+		return me.w.PublicKey(), other.auth.Signature(cur)[:64], ""
+	}},
+	{"sig64_replay_other_session", func(r *rand.Rand, me, other *party, cur, tr []byte, prev *prevSession) ([]byte, []byte, string) {
+		return prev.pub, prev.sig[:64], ""
+	}},
+	{"sig64_bitflip", func(r *rand.Rand, me, other *party, cur, tr []byte, prev *prevSession) ([]byte, []byte, string) {
+		s := me.auth.Signature(cur)[:64]
+		s[r.Intn(64)] ^= 1 << uint(r.Intn(8))
+		return me.w.PublicKey(), s, ""
+	}},
+	{"sig64_signed_traffic_key", func(r *rand.Rand, me, other *party, cur, tr []byte, prev *prevSession) ([]byte, []byte, string) {
+		return me.w.PublicKey(), me.auth.Signature(tr)[:64], ""
+	}},
+	{"sig64_zero", func(r *rand.Rand, me, other *party, cur, tr []byte, prev *prevSession) ([]byte, []byte, string) {
+		return me.w.PublicKey(), make([]byte, 64), ""
 	}},
 	{"short_signature", func(r *rand.Rand, me, other *party, cur, tr []byte, prev *prevSession) ([]byte, []byte, string) {
 		return me.w.PublicKey(), me.auth.Signature(cur)[:r.Intn(64)], ""
@@ -738,6 +794,9 @@ func handshakes(c *ev.Ctx, r *rand.Rand, ps []*party) {
 		late = append(late, lateCheck{a, side, atk.name})
 		c.Count("hs_"+side+"_attack_rejected", 1)
 		c.Count("hs_attack_"+atk.name, 1)
+		if len(atk.name) > 5 && atk.name[:5] == "sig64" {
+			c.Count("hs_attack_64_byte_signature_rejected", 1)
+		}
 		c.NonTrivial(fmt.Sprintf("H%s/%s/%s/%x", side, a.suite, atk.name, a.extra))
 		if c.WantSample() {
 			c.Sample(map[string]interface{}{"kind": "handshake", "real_side": side, "suite": a.suite, "attack": atk.name, "closed": a.closed, "response_error": a.respErr})
